@@ -1,7 +1,9 @@
 """C19: graph, permutation, colouring and ordering tools meet their definitions.
 
 G  spec/AdjacencyGraph.tla, spec/AdjacencyPerm.tla -> every call with the result predicted by the specification
-   (spec/Rel.tla, spec/Adjacency.tla), replayed by harness/c19_adjacency.cpp and compared.
+   (spec/Rel.tla, spec/Adjacency.tla), replayed by harness/c19_adjacency.cpp and compared; spec/AdjacencyColor.tla does the
+   same for Coloring objects built from explicit colour arrays (unused colours in the middle / at the end, no nodes):
+   inspect, clone, create_partition_graph.
 V  spec/AdjacencyUG.tla enumerates every undirected graph x every colouring order / Cuthill-McKee option (results are
    not unique, so they are recorded, not predicted); a seeded random driver adds graphs up to 200 nodes; TLC judges
    every recorded result by the contracts of spec/Adjacency.tla (spec/AdjacencyV.tla).
@@ -42,6 +44,8 @@ def gen_configs(tier):
         ug = [('MaxNodes = 4 Variants = {"plain", "loops", "desc", "dup"} OrderMode = "all"', "undirected n<=4 all variants all orders", 1),
               ('MaxNodes = 5 Variants = {"plain", "loops"} OrderMode = "few"', "undirected n<=5 plain/loops few orders", 1)]
     out += [("AdjacencyUG", c, "InputValid Emit", nm, w, "v") for c, nm, w in ug]
+    out.append(("AdjacencyColor", "MaxN = 5 MaxC = 5" if tier == "thorough" else "MaxN = 4 MaxC = 4", "ObjValid PartitionLaw Emit",
+                "Coloring objects from explicit colour arrays", 1, "c"))
     return out
 
 
@@ -185,6 +189,8 @@ def sig(c, r):
             s["nnz0"] = len(c["g1"]["rep"]["ci"]) == 0
     elif c["h"] == "p":
         s.update({"kind": c["kind"], "n": c["n"], "invert": c["invert"]})
+    elif c["h"] == "c":
+        s.update({"ctor": c["ctor"], "gap": c["gap"], "unused_at_end": c["unused_at_end"], "no_nodes": c["n"] == 0})
     else:
         call = c.get("call", {})
         if c["op"] == "cmk":
@@ -197,7 +203,7 @@ def sig(c, r):
 
 
 def key(c):
-    d = {k: v for k, v in c.items() if k not in ("exp", "deg", "maxdeg", "ordered", "first_empty", "meta", "mode")}
+    d = {k: v for k, v in c.items() if k not in ("exp", "deg", "maxdeg", "ordered", "first_empty", "meta", "mode", "obj", "gap", "unused_at_end")}
     return json.dumps(d, sort_keys=True)
 
 
@@ -205,7 +211,7 @@ def nontrivial(c):
     if c["h"] == "g":
         g = c["g1"]
         return len(g.get("idx", g.get("rep", {}).get("ci", []))) > 0
-    if c["h"] == "p":
+    if c["h"] in ("p", "c"):
         return c["n"] >= 2
     return c.get("n", c.get("g", {}).get("nd", 0)) >= 2
 
@@ -298,7 +304,8 @@ def run(chk):
     chk.rule = ("G: every post-state of spec/AdjacencyGraph.tla (all graphs with nd, ni <= 3 and <= 2-3 images per node with duplicates and "
                 "order x 8 render types, sort, inspect; all composition pairs within the bounds; all domain/image permutation pairs; all "
                 "CSR patterns x permutation pairs) and spec/AdjacencyPerm.tla (all permutations of length 0..5 x 5 constructor kinds x "
-                "apply/inverse/clone/map/concat), result predicted by the spec and compared exactly (as bags where order is not "
+                "apply/inverse/clone/map/concat) and spec/AdjacencyColor.tla (all colour arrays on <= 4/5 nodes with <= 4/5 declared colours x "
+                "4 constructors x inspect/clone/create_partition_graph), result predicted by the spec and compared exactly (as bags where order is not "
                 "contractual). V: every undirected graph on <= 4/5 nodes x storage variants x colouring orders x 18 Cuthill-McKee "
                 "options (spec/AdjacencyUG.tla) plus seeded random graphs up to 80/200 nodes, real results judged by TLC "
                 "(spec/AdjacencyV.tla). non-trivial = at least one adjacency / length >= 2; distinct = distinct (call, input)")
